@@ -252,6 +252,10 @@ class SqlalchemyRender:
                     col0 = self.to_expression(f.field)
                     if f.direction == 'DESC':
                         col0 = col0.desc()
+                    if f.nulls.upper() == 'NULLS FIRST':
+                        col0 = sa.nullsfirst(col0)
+                    elif f.nulls.upper() == 'NULLS LAST':
+                        col0 = sa.nullslast(col0)
                     order_by.append(col0)
 
             col = sa.over(
